@@ -57,4 +57,21 @@ var props = map[string]propCfg{
 		},
 		NotDecided: []string{"main's argument handling beyond routing one argument to processListFile(\"README.md\", arg)", "the result of the final write is ignored by the tool (observation): a failed write returns normally with nothing written"},
 	},
+	"C07": {
+		Modules: []string{"fc", "pkg/sys"},
+		Decided: []string{
+			"output naming: the file written for X.fo is Join(Dir(X.fo), \"gen_\" + base-without-.fo + \".go\"); a .foi argument writes nothing and the returned parse state is the one after parsing it (transpileOne)",
+			"per-let reset: psResetTmpCtx zeroes the temporary counter, replaces only the type-variable context and keeps every other component; parseRootLet uses its incoming state only as the argument of psResetTmpCtx (syntactic obligation)",
+			"root guard: parseRootOneStmt returns normally only if the root scope is the only scope",
+		},
+		NotDecided: []string{"the main clause - inserting, deleting or reordering unrelated top-level definitions, or splitting into files, leaves a definition's translation unchanged - is a non-interference property of the whole parser over scopes and the global info tables; it is NOT decided by these obligations", "known finding F8 (two record types with the same field names) is a counterexample to the main clause; it is listed under C05"},
+		Scans: []func(*run){scanRootLetUsesResetOnly},
+	},
+	"C09": {
+		Modules: []string{"fc"},
+		Decided: []string{
+			"exaustiveCheck(ttype, arms): when ttype is a union, it panics (the diagnostic path) if and only if the union's info is missing or some case of the union is named by no arm - for unions of any size, any arm order, duplicate arms, arms naming unknown cases",
+		},
+		NotDecided: []string{"that parseURules routes every default-less match through exaustiveCheck and that a match whose target is not yet known to be a union never reaches it (read, not proved)", "the emitted 'never reached' panic being unreachable in accepted programs (a C01-level consequence)"},
+	},
 }
